@@ -247,6 +247,15 @@ theorem generated_arena_schedule_purge_keeps_invariant (σ : ArSt) (idx n delay 
     AInvG (GenR.mi_arena_schedule_purge σ idx n delay pre nr1 g1 nr2 g2 now) :=
   gen_schedule_inv σ idx n delay pre nr1 g1 nr2 g2 now hon1 hon2 h
 
+open GenR C07A in
+/-- generated core of `_mi_arena_free` (commit-state test, schedule-purge, release of the in-use bits): keeps the invariant provided the
+    caller reports `all_committed` only for an accessible range; a partly committed range is recorded as uncommitted before it is released -/
+theorem generated_arena_free_keeps_invariant (σ : ArSt) (allc : Bool) (idx n delay : Int) (pre nr1 g1 nr2 g2 : Bool) (now : Int)
+    (hon1 : g1 = true → nr1 = true) (hon2 : g2 = true → nr2 = true) (hc : σ.hasCommitted = true) (hp : σ.pinned = false)
+    (h : AInvG σ) (hall : allc = true → ∀ k, inRange idx n k = true → σ.os k = true) :
+    AInvG (GenR._mi_arena_free_core σ allc idx n delay pre nr1 g1 nr2 g2 now) :=
+  gen_free_core_inv σ allc idx n delay pre nr1 g1 nr2 g2 now hon1 hon2 hc hp h hall
+
 /-- a refused arena commit is recorded: the range is not handed out as committed -/
 theorem aAlloc_refused (a : Arena) (i n : Nat) (hnot : allSet a.committed i n = false) : (aAlloc a i n true false).2 = false := by
   unfold aAlloc
